@@ -20,10 +20,14 @@ Writable(scope) == CASE scope \in {"recv", "hash"} -> {"req"}
                      [] scope \in {"hit", "error"} -> {"req", "obj"}
                      [] scope \in {"deliver", "log"} -> {"req", "resp"}
 
-Visible(sub) == CASE sub = "main" -> {"var.i", "var.j", "var.f", "var.r", "var.s", "var.t", "var.b", "var.tm"}
+\* var.n is declared and never assigned by the fixed part of the program (a not-set STRING operand);
+\* g0 / g1 take no parameter and declare their locals - the same names, var.f with another type - inside a block
+Visible(sub) == CASE sub = "main" -> {"var.i", "var.j", "var.f", "var.r", "var.s", "var.t", "var.b", "var.tm", "var.n"}
+                  [] sub = "g0" -> {"var.i", "var.s", "var.f", "var.n"}
+                  [] sub = "g1" -> {"var.i", "var.s"}
                   [] sub = "f1" -> {"var.p", "var.q", "var.i", "var.s"}
                   [] sub = "f2" -> {"var.p", "var.i", "var.s"}
-IsLocal(n) == n \in {"var.i", "var.j", "var.f", "var.r", "var.s", "var.t", "var.b", "var.tm", "var.p", "var.q"}
+IsLocal(n) == n \in {"var.i", "var.j", "var.f", "var.r", "var.s", "var.t", "var.b", "var.tm", "var.n", "var.p", "var.q"}
 Ty(n) == CASE n \in {"var.i", "var.j", "var.q"} -> "INTEGER"
            [] n = "var.f" -> "FLOAT"
            [] n = "var.r" -> "RTIME"
@@ -33,7 +37,7 @@ Ty(n) == CASE n \in {"var.i", "var.j", "var.q"} -> "INTEGER"
 
 
 Objs == {"req", "bereq", "beresp", "obj", "resp"}
-LocalNames == {"var.i", "var.j", "var.f", "var.r", "var.s", "var.t", "var.b", "var.tm", "var.p", "var.q"}
+LocalNames == {"var.i", "var.j", "var.f", "var.r", "var.s", "var.t", "var.b", "var.tm", "var.n", "var.p", "var.q"}
 ReGroups == {"re.group.0", "re.group.1", "re.group.2"}
 \* H1 (with another spelling and a sub-field) and H2 start with a value, H3 starts not set, H4 set and empty
 HdrRecs == {[n |-> o \o ".http." \o h, o |-> o, g |-> IF h \in {"H2", "H3", "H4"} THEN h ELSE "H1"] :
@@ -62,7 +66,7 @@ Unjudged(s) == s.k \in {"unset", "add"}
 
 \* the non-local names a statement itself names as target
 OwnGlobals(s) == IF s.k \in {"set", "unset", "add"} /\ ~IsLocal(s.t) THEN Derived(s.t) ELSE {}
-\* the subroutines reachable from a call of f (main -> f1 -> f2, no recursion)
+\* the subroutines reachable from a call of f (main -> f1 -> f2, main -> g0 -> {g1, f2}; f2 and g1 call nothing)
 Reach(P, f) == {f} \cup UNION {CallsIn(s) : s \in StmtsOfSub(P, f)}
 \* what a call of f may change in the caller's view: never a local of the caller, never re.group.*
 SubGlobals(P, f) ==
